@@ -308,6 +308,13 @@ def nextFault (c : Nat) : M Fault := fun s =>
     some (.ok f, { s with scripts := s.scripts.map fun p => if p.1 == c then (c, rest) else p })
   | _ => some (.ok Fault.behave, s)
 
+/-- is the next scripted fault of cache `c` a blind one (`lieBlind`)?  If so it is consumed. -/
+def blindFault (c : Nat) : M Bool := fun s =>
+  match s.scripts.find? (fun p => p.1 == c) with
+  | some (_, Fault.lieBlind :: rest) =>
+    some (.ok true, { s with scripts := s.scripts.map fun p => if p.1 == c then (c, rest) else p })
+  | _ => some (.ok false, s)
+
 def cacheGetFailure : Err := errOther "CacheGetFailure"
 
 def filterM' {α} (f : α → M Bool) : List α → M (List α)
@@ -714,6 +721,8 @@ def backendGet (env : Env) (run : Run) (x : Expr) (c : Nat) (o : V) : M V :=
     | some v => pure v
     | Option.none => raise cacheGetFailure
   | .scripted => do
+    if ← blindFault c then do emit (.cacheOp c "get" .none "blind"); raise cacheGetFailure
+    else do
     let fp ← fingerprintOf run x o
     let f ← nextFault c
     match f with
@@ -732,6 +741,8 @@ def backendExists (env : Env) (run : Run) (x : Expr) (c : Nat) (o : V) : M Bool 
     let r ← lookupStore c fp "exists"
     pure r.isSome
   | .scripted => do
+    if ← blindFault c then do emit (.cacheOp c "exists" .none "blind"); pure true
+    else do
     let fp ← fingerprintOf run x o
     let f ← nextFault c
     match f with
